@@ -34,7 +34,7 @@ from simkit.world import digest
 ID = "C37"
 LEVEL = "fault_enumeration"
 ENGINE = "simkit/storage-world"
-QUICK_RUNS = 1600
+QUICK_RUNS = 4000
 QUICK_BUDGET_S = 150
 THOROUGH_BUDGET_S = 900
 CHUNK = 20
@@ -92,12 +92,16 @@ def matches(flt, kind):
 # generator
 # ---------------------------------------------------------------------------
 def _small_spec(r, kind, tag):
-    for _ in range(8):
-        s = M.gen_flow_spec(r, kind=kind, max_edits=4, tag=tag)
-        # keep files in the 1-30 KiB range: the number of offsets is the cost of a case
-        if len(repr(s)) < 6000:
-            return s
-    return {"kind": kind, "base": s["base"], "edits": []}
+    M.ZERO_MSG_TS[0] = False  # the 0.0 message timestamp defect belongs to C36
+    try:
+        for _ in range(8):
+            s = M.gen_flow_spec(r, kind=kind, max_edits=4, tag=tag)
+            # keep files in the 1-30 KiB range: the number of offsets is the cost of a case
+            if len(repr(s)) < 6000:
+                return s
+        return {"kind": kind, "base": s["base"], "edits": []}
+    finally:
+        M.ZERO_MSG_TS[0] = True
 
 
 def generate(rng, tier):
@@ -469,9 +473,12 @@ def exec_save(ctx, sc):
 
     def add(self_, f):
         n0 = len(dumped)
-        orig_add(self_, f)
-        for p, c in dumped[n0:]:
-            timeline.append(("buffered", p, c))
+        try:
+            orig_add(self_, f)
+        finally:
+            # also when the write raised: part of the record may have reached the image
+            for p, c in dumped[n0:]:
+                timeline.append(("buffered", p, c))
 
     def fold():
         st = {}
